@@ -266,6 +266,10 @@ func runC13(c *fw.Ctx, idx int) fw.Result {
 			}
 		}
 		res.Count("thresholds_"+t.kind, 1)
+		if idx%15 == 7 && t.kind == "equal" && cmd != "snps" && len(res.Viol) == 0 {
+			// the same --aggregate run through the binary, threshold printed with round-trip precision
+			ac.binVariants(c, &res, idx, -1, -1, true, th, appendSNP, 2, agg)
+		}
 		if len(res.Viol) > 0 {
 			break
 		}
